@@ -378,6 +378,10 @@ def c16_ops(kind, pv, S, r):
     # a kind's loader refuses another kind's image
     others = [k for k in ALL_KINDS if k != kind]
     ops += [["foreign", k] for k in r.sample(others, 4)]
+    # loaders that take a load option must refuse foreign images whatever the option
+    for k in ("HASHHF", "HASHRPF"):
+        if k != kind:
+            ops.append(["foreign", k, r.choice([2, 3])])
     return ops
 
 
@@ -422,7 +426,7 @@ PROPS["C08"] = PropSpec(c08_streams,
 PROPS["C13"] = PropSpec(simple_dict_prop(c13_ops, ALL_KINDS, "iters"),
                         _RULE % "extractTable vs extract(k), sorted table, string/ID iterators of prefix and substring searches, NUL termination and reported lengths",
                         _PART, "iterator state machines drain to the specification lists", _ASSUME)
-PROPS["C15"] = PropSpec(simple_dict_prop(c15_ops, ALL_KINDS, "meta"),
+PROPS["C15"] = PropSpec(simple_dict_prop(c15_ops, ALL_KINDS, "meta", phases=("built", "loaded", "loaded2")),
                         _RULE % "numElements and maxLength on built and reloaded objects",
                         _PART, "counter folds of the constructor models", _ASSUME)
 PROPS["C16"] = PropSpec(simple_dict_prop(c16_ops, ALL_KINDS, "failsafe"),
